@@ -267,7 +267,7 @@ class HillClimbAllocator:
             # Pick any affecting live range.
             ix1 = turn_list[random.randint(0, len(turn_list) - 1)]
 
-        ix2 = turn_list[random.randint(0, len(turn_list) - 2)]
+        ix2 = turn_list[random.randint(0, max(len(turn_list) - 2, 0))]
         if ix1 == ix2:
             ix2 = turn_list[-1]
         # Swap indices
